@@ -392,6 +392,8 @@ class BddMachine(Machine):
             if den(r) != mask:
                 raise Violation('held reference changed denotation', ref=r,
                                 got=U.fmt(den(r)), want=U.fmt(mask))
+            if hasattr(m, 'ref') and (m.ref(r) != m._ref[abs(r)] or m.ref(-r) != m._ref[abs(r)]):
+                raise Violation('ref(u) does not report the reference count of the node', ref=r)
 
     def key(self, st):
         return S.key(st.m, (sorted(st.h), len(st.b)))
